@@ -17,6 +17,9 @@ import (
 )
 
 // case ids of this package start here (one runner evidence table for all packages)
+// directory of this package inside the repository (race signatures are made relative to the repository root)
+const vC18PkgDir = "pintracker/optracker"
+
 const vC18IDBase = 100
 
 var vC18Plan = []vC18Scen{{Name: "optracker", Ms: 800, Workers: 8}}
